@@ -25,6 +25,61 @@ CLAIMED = {
   text="The observable of the property (returns normally / panics / exhausts the stack / does not terminate) is taken from the exit status of a child process that drains the real evaluator on a 2 MiB thread, for every configuration of the family and for both build profiles.",
   note="Trusts the OS exit status and the 2 MiB stack size given to the thread. The family is structured (blocked runs up to 1.18 M deals, sizes around u8 boundaries, empty ranges, realistic notation), not all inputs.",
   ref="4/C08"),
+ "C03": dict(
+  technique="bounded-exhaustive enumeration of tables on the real Showdown::new (every weak ordering of <=4 players, every winner subset of 5-10 players from a type alphabet, board-plays ties, all C(52,5) boards x fixed tables) against the reference ranking",
+  text="Real Showdown::new on families that realise every one of the 1/3/13/75 weak orderings of up to four players (measured on every run), every tie pattern at a full table, all-tie boards, every hole/board collision slot and (thorough) all 2,598,960 boards; flags, winner_len, order, own evaluation compared with the M-rank classes.",
+  note="Trusts M-rank. Boards x tables are structured families, not the full product.",
+  ref="4/C03"),
+ "C04": dict(
+  technique="explicit-state exploration from every start state: all 693,253 scope windows of the position line run on the real iterator to exhaustion (+3 calls) and compared with the unscoped run; all two-cuts and grid three-cuts; repeated scope()",
+  text="Every (from, to) window of the 1176-position line (terminal included) is run on the real scoped evaluator and must yield exactly the unscoped showdowns of positions in [from,to), position by position in order, then stay exhausted. The window dimension is enumerated completely.",
+  note="Reference = unscoped run of the same real evaluator, cross-checked with M-deals. One configuration in quick, four in thorough.",
+  ref="4/C04"),
+ "C05": dict(
+  technique="exhaustive enumeration of the token grammar (all 3,640 well-formed tokens x 9 weight literals) and bounded-exhaustive token lists (all ordered pairs, triples over a sub-alphabet) on the real parser against a reference meaning",
+  text="Every well-formed token generated from the grammar is parsed both as a token (and expanded) and as a range and compared with the combos it denotes in standard notation; all ordered token pairs (988^2 in thorough) check last-wins on overlaps; spaces at every offset; empty input.",
+  note="Trusts M-notation. Lists longer than three tokens are not enumerated.",
+  ref="4/C05"),
+ "C06": dict(
+  technique="bounded-exhaustive enumeration of range shapes (every 3-state pattern along every row of the chart, every pattern inside one rank pair, whole-chart diagonals, weight set) through the real formatter and parser; every constructible token value round-tripped",
+  text="For each enumerated range the real to_string() output is parsed back by the real parser and must give the same combos with bit-identical weights; each of the 2,314 well-formed token values x 12 weights must round-trip.",
+  note="Ranges are structured shapes (rows, inside-rank-pair, diagonals), not all 2^1326 subsets; weights from a 12-value set including 0, subnormal and 0.99999994.",
+  ref="4/C06+C17"),
+ "C09": dict(
+  technique="bounded-exhaustive string enumeration (all strings <= 4/5 symbols over notation+multi-byte alphabets; every string of the seven token shapes; over-long inputs) through every real parser and every follow-up use of the parsed value, under catch_unwind",
+  text="Every string of the bounded families is parsed as rank, suit, card, card pair, token and range; every value obtained is formatted, expanded, split into rank pairs and leftovers and enumerated by the evaluator. The oracle is only 'returned normally'.",
+  note="All strings over Unicode is infinite: the claim is for the stated alphabets and lengths, plus all 146,523 shape strings.",
+  ref="4/C09"),
+ "C10": dict(
+  technique="bounded-exhaustive string enumeration as C09 plus the weight grammar enumerated to four decimals and all 52^2 card-pair texts; every parsed value and every showdown built from parsed ranges inspected",
+  text="Every combo of every value the parsers return for the enumerated strings must consist of two different cards and carry a weight in [0,1]; showdowns enumerated from lists of parsed overlapping ranges must hold 5+2n different cards and a probability in [0,1].",
+  note="Same string bounds as C09; weight literals complete to four decimals plus 63 long literals.",
+  ref="4/C10"),
+ "C11": dict(
+  technique="exhaustive enumeration of the symmetry group (all 24 suit permutations x all player orders) over a closed family of configurations, real evaluator drained each time, integer tallies compared",
+  text="For every configuration of the family the real evaluator is drained under each of the 24 suit relabellings and each player order; per-player counts of outright wins and k-way ties, showdown count and weight sum must be equal / permuted; flags must match winner_len in every showdown.",
+  note="Range lists are three fixed suit-asymmetric overlapping lists; flops 220 (quick) or all 22,100 (thorough).",
+  ref="4/C11"),
+ "C12": dict(
+  technique="exhaustive enumeration of every absent/weight-a/weight-b pattern inside every rank pair (3^6, 3^4, 3^12) in three backgrounds on the real rank_pairs()/orphan_card_pairs() against a reference split",
+  text="For every rank pair every pattern over its combos is built as a real HandRange alone, inside the complementary full range, and beside the same pattern on the neighbouring rank pair of the other kind; both views are compared with the statement's definition and must partition the range.",
+  note="Trusts M-split. Quick uses 2^12 for most offsuit pairs; thorough 3^12 for all 78.",
+  ref="4/C12"),
+ "C15": dict(
+  technique="schedule enumeration: own DFS over all call-granularity interleavings of up to four live evaluators with iterated preemption bound; shuttle exhaustive DFS over real spawned threads; all first-use orders in fresh processes; compile-time Send+Sync probe",
+  text="Every interleaving of the actors' API calls on one thread (unbounded for the two- and four-actor groups, preemption-bounded for three in quick) and every shuttle schedule of threads yielding before each call must give each evaluator the sequence it gives alone; every order of first use in a fresh process must give the same solo sequences, equal to what M-deals derives from the actor's own inputs; the public types must be Send + Sync.",
+  note="Preemption inside one API call is not explored (no sync primitive to intercept; premise 'no shared mutable state in src/' audited each run and recorded, never a verdict). A free-running 16-thread pass is sampling and labelled so.",
+  ref="4/C15", engine="vcheck+sched"),
+ "C16": dict(
+  technique="exhaustive enumeration of the real splitter for every n up to 16,384/131,072, replay of every scope list (n<=64/512) through the real iterator, and exhaustive enumeration of a code-bound transcription over all 1,065,353,216 f32 fractions",
+  text="calculate_scopes (compiled from the example's own file) is run for every worker count up to the bound and checked for count, endpoints, contiguity, monotonicity and validity; each list is replayed through FlopExhaustiveEvaluator::scope against M-deals; the cut-point function, after agreeing with the code on every enumerated (n,i), is checked on every f32 in (0,1], which covers every n <= 2^24.",
+  note="The all-fractions extension is used only while the transcription agrees with the code on every enumerated pair; otherwise it is reported as not bound and the verdict rests on the direct enumeration.",
+  ref="4/C16"),
+ "C17": dict(
+  technique="bounded-exhaustive enumeration of range shapes through the real formatter against a reference canonical form, plus explicit-state search over insertion histories (all sequences <= 3/4 over 16 symbols, three construction routes) checking that text is a function of contents",
+  text="For every enumerated range the real text must be exactly the canonical token list (maximal runs, rows in order) followed by the leftover set; every construction history reaching the same contents must print the identical string and compare equal.",
+  note="Leftover pocket combos may be printed twice (pinned by the repository's own test); the leftover section is compared as a set.",
+  ref="4/C06+C17"),
  "C13": dict(
   technique="complete enumeration of the finite domains (52 cards, 13 ranks, 4 suits, all 1- and 2-char ASCII strings, all Unicode scalars, all range endpoint pairs) on the real conversions",
   text="Every value of every finite domain named by the property is run through the real conversion functions and compared with tables written from the property text.",
@@ -67,8 +122,11 @@ def main():
             "add_only": True,
         },
         "engines": [
-            {"name": "vcheck", "path": "/verif/harness/vcheck", "serves_properties": [p for p in ALL if p in CLAIMED and CLAIMED[p].get("engine", "vcheck") == "vcheck"],
+            {"name": "vcheck", "path": "/verif/harness/vcheck", "serves_properties": [p for p in ALL if p in CLAIMED],
              "kind_free_text": "bounded-exhaustive enumeration / explicit-state exploration of the real espada code against in-language reference models (vlib)"},
+            {"name": "drain", "path": "/verif/harness/drain", "serves_properties": ["C08"], "kind_free_text": "child process draining one configuration on a 2 MiB thread; built with the stock dev and release profiles"},
+            {"name": "sched", "path": "/verif/harness/sched", "serves_properties": ["C15"], "kind_free_text": "shuttle 0.9.3 exhaustive DFS scheduler over real spawned threads"},
+            {"name": "sendsync", "path": "/verif/harness/sendsync", "serves_properties": ["C15"], "kind_free_text": "compile-time Send + Sync probe"},
         ],
         "checks": checks,
         "notes": "All checks rebuild espada from /repo's working tree through a cargo path dependency. Exit 2 = machinery failure, never a verdict.",
